@@ -637,6 +637,12 @@ func main() {
 				kind = "400"
 			}
 			violation("C02/call-failed/"+kind+"/"+feat+"/text="+fmt.Sprint(row.Cfg.Text)+"/mount="+row.Cfg.Mount, fmt.Sprintf("the call failed: %v (wire: %v)", callErr, cs["wire"]), cs)
+			// C05 through the GENERATED registration: Call.tla routes this wire request to the called method on the VT tree;
+			// with plain argument content (nothing that could fail to decode) a 4xx without any resource method having
+			// run means the generated RegisterResource did not build the tree the schema describes
+			if (rec.status == 400 || rec.status == 404) && len(got) == 0 && row.Cfg.Text == 1 {
+				violation("C05/generated-registration/not-routed/"+feat+"/mount="+row.Cfg.Mount, fmt.Sprintf("%s %s (method header %q) was answered %d and no resource method ran; the protocol table routes it to %s", rec.verb, rec.path, rec.methodHdr, rec.status, gm), cs)
+			}
 			continue
 		}
 		if len(got) != 1 || got[0].method != gm {
@@ -645,6 +651,7 @@ func main() {
 				names = append(names, g.method)
 			}
 			violation("C02/wrong-method/"+feat, fmt.Sprintf("resource methods invoked: %v, expected exactly %s", names, gm), cs)
+			violation("C05/generated-registration/wrong-method/"+feat, fmt.Sprintf("resource methods invoked: %v, the protocol table routes the request to exactly %s", names, gm), cs)
 			continue
 		}
 		// arguments
